@@ -184,6 +184,8 @@ type histCase struct {
 	Keys    int    `json:"keys"`
 	Hostile bool   `json:"barrier_inside_f"`
 	Fresh   bool   `json:"key_absent_at_start"`
+	// Directed: two callers, one operation each: append vs append-only-if-even, both inside f on the same version
+	Directed bool `json:"directed_decline_race,omitempty"`
 }
 
 // barrier holds callers inside f until k of them have arrived (or a short timeout), so that many
@@ -219,8 +221,19 @@ func (b *barrier) wait() {
 }
 
 func runHistory(run *vt.Run, c vt.CaseID, rng *rand.Rand, kind, wrapper string) {
+	runHistoryD(run, c, rng, kind, wrapper, false)
+}
+
+// runHistoryD with directed set runs the shortest race of a writer against a caller whose function decides on the
+// value it reads: two callers, one operation each (append / append-only-if-even), both held inside f until both have
+// read the same version; the loser's retry declines. What the wrappers did with the loser's first result shows in
+// the secondary store, which nobody overwrites afterwards.
+func runHistoryD(run *vt.Run, c vt.CaseID, rng *rand.Rand, kind, wrapper string, directed bool) {
 	hc := histCase{Backend: kind + "/" + wrapper, Callers: 2 + rng.IntN(15), OpsEach: 1 + rng.IntN(vt.N(12, 50)), Keys: 1 + rng.IntN(3), Hostile: rng.IntN(2) == 0, Fresh: rng.IntN(4) == 0}
-	b, err := mkBackend(kind, wrapper, fmt.Sprintf("%d-%d", c.Seed, c.Idx))
+	if directed {
+		hc = histCase{Backend: kind + "/" + wrapper, Callers: 2, OpsEach: 1, Keys: 1, Hostile: true, Fresh: true, Directed: true}
+	}
+	b, err := mkBackend(kind, wrapper, fmt.Sprintf("%s-%d-%d", c.Gen, c.Seed, c.Idx))
 	if err != nil {
 		run.Inconclusive(err.Error())
 		return
@@ -229,7 +242,7 @@ func runHistory(run *vt.Run, c vt.CaseID, rng *rand.Rand, kind, wrapper string) 
 	ctx := context.Background()
 	keys := make([]string, hc.Keys)
 	for i := range keys {
-		keys[i] = fmt.Sprintf("key-%d-%d-%d", c.Seed, c.Idx, i)
+		keys[i] = fmt.Sprintf("key-%s-%d-%d-%d", c.Gen, c.Seed, c.Idx, i) // the in-memory store is process-wide
 		if !hc.Fresh {
 			err := b.client.CAS(ctx, keys[i], func(interface{}) (interface{}, bool, error) {
 				d := ring.NewDesc()
@@ -251,6 +264,9 @@ func runHistory(run *vt.Run, c vt.CaseID, rng *rand.Rand, kind, wrapper string) 
 	var mu sync.Mutex
 	var ops []opRec
 	bar := &barrier{k: 2 + rng.IntN(hc.Callers), ch: make(chan struct{})}
+	if hc.Directed {
+		bar.k = 2
+	}
 	var wg sync.WaitGroup
 	seeds := make([]uint64, hc.Callers)
 	for i := range seeds {
@@ -265,6 +281,9 @@ func runHistory(run *vt.Run, c vt.CaseID, rng *rand.Rand, kind, wrapper string) 
 				key := keys[r.IntN(len(keys))]
 				rec := opRec{Caller: caller, Key: key}
 				kindOp := []string{"inc", "inc", "append", "append", "decline", "fail", "fail-retry", "get", "append-if-even"}[r.IntN(9)]
+				if hc.Directed {
+					kindOp = []string{"append", "append-if-even"}[caller]
+				}
 				rec.Kind = kindOp
 				if kindOp == "get" {
 					rec.Call = clock.Add(1)
@@ -422,6 +441,9 @@ func judge(run *vt.Run, c vt.CaseID, hc histCase, keys []string, initial, finals
 				}
 				state = o.Attempts[len(o.Attempts)-1].Out
 				steps++
+				if steps > nsucc {
+					break // a cycle (an output equal to an earlier input): reported as a broken chain below
+				}
 			}
 			if steps != nsucc {
 				viol("phantom-or-broken-chain", fmt.Sprintf("%d successful CAS calls but only %d of them form a chain from the initial value", nsucc, steps), map[string]any{"key": key, "initial": initial[key], "chain_end": state, "final": finals[key]})
@@ -474,7 +496,7 @@ func judge(run *vt.Run, c vt.CaseID, hc histCase, keys []string, initial, finals
 
 func TestC07(t *testing.T) {
 	run := vt.NewRun("C07", "exploration")
-	run.SetRule("case = one history of 2-16 concurrent callers x 1-12 (thorough 50) operations on 1-3 keys against one backend/wrapper combination (in-memory Consul store, etcd client on its in-process mock, gossip store on one node; bare, prefix wrapper, metrics+prefix through the public constructor, multi-client with mirroring on and off in both primary/secondary arrangements), functions: increment, append a unique element, append only if the value read has an even number of entries (else decline), decline, fail without retry, fail with bounded retry, plus Get; in half of the histories callers are held inside f on a barrier until several have read the same version; keys pre-created or absent. Every call is recorded at the client boundary (attempt inputs/outputs, error, logical call/return times) and decided by (1) porcupine against a register model, (2) a chain check over unique values (no two successes on one input, successes form a chain from the initial value, final Get = end of the chain), (3) for mirroring multi clients the secondary store, read directly at the end, holds only elements appended by successful calls and no counter beyond the primary's (an overwriting secondary: exactly the initial value or the output of a successful call); all under the race detector. non-trivial = more than one successful CAS on the key; distinct by history parameters; distinct final values counted.")
+	run.SetRule("case = one history of 2-16 concurrent callers x 1-12 (thorough 50) operations on 1-3 keys against one backend/wrapper combination (in-memory Consul store, etcd client on its in-process mock, gossip store on one node; bare, prefix wrapper, metrics+prefix through the public constructor, multi-client with mirroring on and off in both primary/secondary arrangements), functions: increment, append a unique element, append only if the value read has an even number of entries (else decline), decline, fail without retry, fail with bounded retry, plus Get; in half of the histories callers are held inside f on a barrier until several have read the same version; keys pre-created or absent; generator decline-race: two callers, one operation each (append vs append-only-if-even) held inside f on the same version, so the loser's retry declines. Every call is recorded at the client boundary (attempt inputs/outputs, error, logical call/return times) and decided by (1) porcupine against a register model, (2) a chain check over unique values (no two successes on one input, successes form a chain from the initial value, final Get = end of the chain), (3) for mirroring multi clients the secondary store, read directly at the end, holds only elements appended by successful calls and no counter beyond the primary's (an overwriting secondary: exactly the initial value or the output of a successful call); all under the race detector. non-trivial = more than one successful CAS on the key; distinct by history parameters; distinct final values counted.")
 	// the process-wide in-memory store must be created outside of any history
 	if _, err := kv.NewClient(kv.Config{Store: "inmemory"}, ring.GetCodec(), nil, log.NewNopLogger()); err != nil {
 		t.Fatal(err)
@@ -490,6 +512,13 @@ func TestC07(t *testing.T) {
 		cb := combos[int(c.Idx)%len(combos)]
 		s.Enter(c, "crash/histories")
 		runHistory(run, c, rng, cb[0], cb[1])
+		s.Leave()
+	})
+	// the shortest race between a writer and a caller whose retry declines, on every combination
+	run.ForEach("decline-race", len(combos)*vt.N(25, 500), func(c vt.CaseID, rng *rand.Rand, s *vt.Slot) {
+		cb := combos[int(c.Idx)%len(combos)]
+		s.Enter(c, "crash/decline-race")
+		runHistoryD(run, c, rng, cb[0], cb[1], true)
 		s.Leave()
 	})
 	_ = io.EOF
